@@ -104,6 +104,8 @@ pub struct World {
     pub viss: Option<crate::fam_viss::VissConn>,
     pub grpc: Option<crate::fam_prov::Grpc>,
     pub sprovs: HashMap<usize, crate::fam_prov::ProvStream>,
+    /// description and unit every signal was registered with (by this harness): id -> (description, unit)
+    pub reg: HashMap<i32, (String, Option<String>)>,
     pub v1streams: HashMap<Tok, crate::fam_prov::V1Stream>,
     pub sdvstreams: HashMap<Tok, crate::fam_prov::SdvStream>,
     pub scopes: Vec<String>,
@@ -130,6 +132,7 @@ impl World {
             viss: None,
             grpc: None,
             sprovs: HashMap::new(),
+            reg: HashMap::new(),
             v1streams: HashMap::new(),
             sdvstreams: HashMap::new(),
             scopes: vec![],
@@ -222,6 +225,12 @@ pub fn enc_message(w: &World, m: &EntryUpdates, cur: SystemTime) -> Vec<Tok> {
     out
 }
 
+/// the description and unit a signal of this name is registered with
+pub fn reg_texts(name: &str) -> (String, Option<String>) {
+    let unit = if name.len() % 2 == 0 { Some(format!("u{}/s", name.len())) } else { None };
+    (format!("about {}", name), unit)
+}
+
 /// everything the query subscribers have been sent, in subscription order
 fn drain_queries(w: &mut World) -> Vec<Vec<Tok>> {
     let mut lines = Vec::new();
@@ -303,16 +312,21 @@ async fn step_inner(w: &mut World, l: &[Tok], start: SystemTime) -> Vec<Vec<Tok>
                 return bad;
             };
             let perms = w.perm(p);
+            // every signal gets a description of its own and, every second one, a unit: each API has to report them
+            // as registered (the flags on the metadata lines)
+            let (description, unit) = reg_texts(&name);
             let r = w
                 .broker
                 .authorized_access(&perms)
-                .add_entry(name, dt, ct, et, "d".to_string(), mn, mx, al, None)
+                .add_entry(name, dt, ct, et, description.clone(), mn, mx, al, unit.clone())
                 .await;
             match r {
                 Ok(id) => {
                     if !w.ids.contains(&id) {
                         w.ids.push(id);
                     }
+                    // a second registration of a path leaves the first one's texts in place
+                    w.reg.entry(id).or_insert((description, unit));
                     vec![vec![0, id as Tok]]
                 }
                 Err(e) => vec![vec![
